@@ -276,6 +276,9 @@ def c05_stage(v, scr, th):
     import checks_fec as cf
     outd = scr.sub("c05-out")
     cc.scripts_stage(v, scr, "C05", ["C05_NoPanic", "C04_RcvQueueBounded", "C04_RcvBufBounded", "C10_OutSize"])
+    # (c) an on-path adversary against sessions without a cipher: the packet the receiver RECONSTRUCTS carries a forged size prefix
+    sess_stage(v, scr, "C05", ["C05_Bounds", "C01_ReadIsNextBytes", "C02_TransferCompletes", "C15_PoolOwnership"], dict(SESS_RUNS=600 if th else 60),
+               tests="TestSessForgedRecovery$", names=("sess_forgedrec",))
     rc, out = vlib.go_test("./fecdrv", "TestFecForged$", dict(VERIF_OUT=outd, FEC_RUNS=96 if th else 16), timeout=1200)
     if rc != 0:
         raise MachineryError("fec driver failed:\n" + out[-3000:])
@@ -302,7 +305,10 @@ def check_c05(tier, replay):
                               "fragments) validated against KcpCore.tla and judged by C05_NoPanic / the C04 bounds; bare FEC decoder: genuine "
                               "traffic mixed with datagrams whose sequence id is altered into the boundary regions of the id space (around 2^31 "
                               "from the newest id, around the wrap value, top of the word, far behind, random; type/position kept consistent; "
-                              "thousands of distinct shard ids), judged by C05_DecoderBounded. Further forged input reaches the core and the "
+                              "thousands of distinct shard ids), judged by C05_DecoderBounded; on-path adversary against cipher-less FEC sessions: one data packet "
+                              "of every fourth group dropped and the first parity packet altered (solved with a reference Reed-Solomon codec) so that "
+                              "the packet the receiver RECONSTRUCTS has a boundary value in its size prefix (0, 1, 2, 3, around a KCP header, true "
+                              "size +/- 1, more than it holds, 65535) -- no crash, stream intact. Further forged input reaches the core and the "
                               "decoder in the C04/C07 checks. Non-trivial = every run (each injects 200-2000 datagrams)",
                               SESS_ASSUME + ["heap growth is bounded through the library's own accounting (queue lengths, shard sets, pool balance)"],
                               mc_cfgs=(("FrameMC", "Frame_mc_nil_0_0.cfg"),), extra_stage=c05_stage)
